@@ -119,6 +119,15 @@ def main():
         pid = p["id"]
         if pid in CHECKS:
             cat, tech, text, note, ref = CHECKS[pid]
+            # the level text above was written when the check was first built; families added since
+            # (seed-driven strengthening, generalisation pass) are named from the committed evidence
+            try:
+                ev = json.load(open(os.path.join(ROOT, "evidence", pid + ".json")))
+                fams = [f.get("name") for f in ev.get("coverage", {}).get("families", []) if f.get("name")]
+                if fams:
+                    text = text + " Families enumerated by the current tiers (bounds and counts per family are in the evidence file; what each was added for is in mutations/" + pid + "/RESULTS.md): " + ", ".join(fams) + "."
+            except Exception:
+                pass
             checks.append({
                 "property_id": pid,
                 "quick_cmd": f"./check {pid} --tier quick",
